@@ -17,6 +17,16 @@ CHECKS = {
              "child accessor (codegen.py) is tied to the code only by the correspondence (differential testing over seeded "
              "zoo trees incl. falsy children, shared objects, long tuples); callbacks assumed pure.",
         design="5/C05"),
+    "C06": dict(
+        technique="Lean 4 proof: Tree tables built from one dfs pass answer every upward query exactly as the root-first chain dictates (induction over the dfs stream / chains) + differential correspondence vs real pyoak.tree.Tree",
+        text="Theorems (every tree, unbounded): membership, parent info = actual storage position, ancestors = parent chain, "
+             "absolute/relative depth, ValueError for non-ancestors, KeyError for foreign nodes, first ancestor of type, "
+             "get_xpath = spelling of the chain; NoRepeat shown necessary by a decide-checked counterexample. Correspondence: "
+             "all queries on all nodes / sampled pairs / content-identical foreign twins on seeded trees, plus an oracle that "
+             "get_xpath values are pairwise distinct and can be followed from the root (that clause is exploration, not yet a theorem).",
+        note="Trusted: Lean kernel + 3 standard axioms; dict-keyed-by-node = map keyed by object identity under the "
+             "statement's precondition (all nodes registered => distinct ids); hand-written model of tree.py tied by correspondence.",
+        design="5/C06"),
 }
 
 TODO_REASON = "check not built yet in this revision (planned, see DESIGN.md section 5); no claim is made"
